@@ -15,7 +15,10 @@ RULE = (
     "variable, the value of the most recently activated handler that did not decline (computed from the tentative "
     "value and the context values at that moment).  Result / exception / generator trace / ordered side-effect log "
     "(=> right-hand sides evaluated exactly once, nothing else changed) / argument and global state must be equal, and "
-    "the plain probes' streams must equal the twin's trace of the focus variable (substituted values).  Focus positions: "
+    "the plain probes' streams must equal the twin's trace of the focus variable (substituted values).  Part B: 2-3 "
+    "constant overriders whose selectors have different call-path depth (g > x, f > g > x, h > f > g > x) on one variable "
+    "of the C03 call-tree family, activated in random order; the value each binding stores (logged by the program) must "
+    "be that of the most recently activated handler whose path matches that activation.  Focus positions: "
     "parameters, plain / tuple / starred / augmented / annotated assignment, loop targets, with targets, attribute "
     "stores (o.attr), the return value (#value).  Closure variables: an override attempt must raise OverrideException "
     "and leave the cell unchanged.  non-trivial = at least one binding was actually substituted and the program's "
@@ -235,8 +238,110 @@ def check_program(m, mod, rnd, res, case_base, nconf):
         res.count("closure_override_attempts")
 
 
+# ---------------------------------------------------------------- part B: call paths
+# Overriders whose selectors have DIFFERENT call-path depth on the same variable, on the
+# self-logging call-tree family of C03: the program logs the value each variable holds right
+# after its binding, so the stored value is directly observable.
+
+
+def part_b(spec, res):
+    from ptera import probing
+    from ptera.interpret import Immediate
+    from ptera.overlay import BaseOverlay, autotool
+    from ptera.selector import select
+    from vlib import calltree as CT
+
+    s0, cnt = spec["range"]
+    ns = None
+    for i in range(s0, s0 + cnt):
+        rnd = rng_for("C04B", spec["seed"], i)
+        if ns is None or i % 40 == 0:
+            nf = 3
+            ns = CT.load_family(spec["scratch"], f"c04fam_{i}", nf)
+        tree = CT.rand_tree(rnd, nf, [rnd.randint(2, 9)])
+        # focus: variable a_k (or v) of function k; overriders = chains of depth 0..2 ending at k
+        k = rnd.randrange(nf)
+        fvar = rnd.choice([f"a{k}", f"b{k}", "v"])
+        ovs = []
+        for j in range(rnd.choice([2, 2, 3])):
+            depth = rnd.randint(0, 2)
+            sel = ["call", k, [fvar], []]
+            fpath = []
+            for _ in range(depth):
+                sel = ["call", rnd.randrange(nf), [], [sel]]
+                fpath = [0] + fpath
+            ovs.append({"sel": sel, "fpath": fpath, "const": 10**6 * (j + 1), "mech": rnd.choice(["override", "intercept"])})
+        case = {"part": "B", "idx": i, "seed": spec["seed"], "tree": tree, "fvar": fvar, "overriders": [[CT.render(o["sel"], o["fpath"], fvar), o["const"], o["mech"]] for o in ovs]}
+        res.evaluations += 1
+        # reference: un-overridden run decides which activation each handler matches
+        ns["reset"]()
+        CT.run_tree(ns, tree)
+        L = CT.Log(list(ns["LOG"]))
+        binds = [(t, act, var, val) for (t, act, var, val) in L.binds if var == fvar and L.fnof[act] == k]
+        matches = []
+        for o in ovs:
+            exp, order = CT.reference_immediate(L, o["sel"], o["fpath"], fvar)
+            matches.append(set(exp))  # focus values (unique) of bindings this handler fires for
+        expected = []
+        for (t, act, var, val) in binds:
+            new = val
+            for o, m in zip(ovs, matches):
+                if val in m:
+                    new = o["const"]  # later-activated handlers overwrite earlier ones
+            expected.append(new)
+        # overridden run
+        ns["reset"]()
+        cms = []
+        tooled = []
+        try:
+            for o in ovs:
+                text = CT.render(o["sel"], o["fpath"], fvar)
+                if o["mech"] == "override":
+                    p = probing(text, env=ns, overridable=True)
+                    p.override(o["const"])
+                    cms.append(p)
+                else:
+                    so = select(text, env=ns)
+                    autotool(so)
+                    tooled.append(so)
+                    cms.append(BaseOverlay(Immediate(so, intercept=lambda d, c=o["const"]: c)))
+            entered = []
+            try:
+                for cm in cms:
+                    cm.__enter__()
+                    entered.append(cm)
+                CT.run_tree(ns, tree)
+            finally:
+                for cm in reversed(entered):
+                    cm.__exit__(None, None, None)
+        except Exception as e:
+            res.violation(case, {"what": "exception while overriding", "error": common.fmt_exc(e)[-1200:]})
+            ns = None
+            continue
+        finally:
+            for so in reversed(tooled):
+                try:
+                    autotool(so, undo=True)
+                except Exception:
+                    pass
+        L2 = CT.Log(list(ns["LOG"]))
+        got = [val for (t, act, var, val) in L2.binds if var == fvar and L2.fnof[act] == k]
+        res.deciding += 1
+        if got != expected:
+            res.violation(case, {"what": "stored values differ: the most recently activated matching override must win", "expected": expected, "got": got})
+        nmatch = [sum(1 for (t, a, v, val) in binds if val in m) for m in matches]
+        if sum(1 for n in nmatch if n) >= 2 and len({len(o["fpath"]) for o in ovs}) >= 2:
+            res.nontrivial_case(["B", tree, case["overriders"]])
+        res.count("B_bindings_overridden", sum(1 for e, (t, a, v, val) in zip(expected, binds) if e != val))
+        if i % 500 == 0:
+            res.sample(case)
+
+
 def run_shard(spec):
     res = ShardResult()
+    if spec.get("part") == "B":
+        part_b(spec, res)
+        return res.as_dict()
     s0, cnt = spec["range"]
     for i in range(s0, s0 + cnt):
         rnd = rng_for("C04", spec["seed"], i)
@@ -258,12 +363,19 @@ def plan(tier, seed, known):
         n, shards, nconf, ms = 1600, 16, 2, 7
     else:
         n, shards, nconf, ms = 40000, 48, 3, 10
-    return [{"range": [s, c], "nconf": nconf, "max_stmts": ms} for s, c in common.split_range(n, shards)]
+    specs = [{"range": [s, c], "nconf": nconf, "max_stmts": ms} for s, c in common.split_range(n, shards)]
+    nb = 3000 if tier == "quick" else 60000
+    specs += [{"part": "B", "range": [s, c]} for s, c in common.split_range(nb, 8 if tier == "quick" else 16)]
+    return specs
 
 
 def replay(case):
     res = ShardResult()
     d = common.scratch_dir("C04r")
+    if case.get("part") == "B":
+        print("tree:", case["tree"], "overriders (activation order):", case["overriders"])
+        part_b({"range": [case["idx"], 1], "seed": case["seed"], "scratch": d}, res)
+        return res.violations
     rnd = rng_for("C04", case["seed"], case["idx"])
     m = progen.build_module(rnd, {"max_stmts": case.get("max_stmts", 7)})
     print(streams.fn_source(m))
